@@ -506,9 +506,13 @@ def gen_sig_opts(r, critical):
         n = r.choice([6, 8, 10, 16, 300, 2050])
         out.append([n, ("v" * r.randint(0, 3)).encode().hex()])
     if critical:
-        n = r.choice([1, 3, 5, 7, 9, 11, 271, 2049])
+        n = r.choice([1, 3, 5, 7, 9, 11, 271, 2049, 65535, 65537, 65803, 65801])
+        if r.chance(0.15):
+            # option numbers are sums of deltas: beyond 16 bit with an elective option in between
+            out.append([65804, ""])
+            n = r.choice([65805, 131537, 131607])
         out.append([n, ("c" * r.randint(0, 3)).encode().hex()])
-    return out
+    return sorted(out, key=lambda o: o[0])
 
 
 def ok_garbage(g):
@@ -783,6 +787,8 @@ def sample_streams(tier):
         [_req("41", 6, 2)],
         [CSM_PLAIN, {"k": "empty"}, {"k": "empty"}, {"k": "badopt", "variant": 0, "token": "51"}],
         [CSM_PLAIN, {"k": "ping", "token": "61"}, {"k": "csm", "opts": [[11, "63"]]}, _req("62", 6, 2)],
+        [{"k": "csm", "opts": [[65804, ""], [131537, ""]]}, _req("63", 6, 2)],
+        [CSM_PLAIN, {"k": "csm", "opts": [[65537, "01"]]}, _req("64", 6, 2)],
     ]
     if tier == "thorough":
         s += [
